@@ -17,16 +17,38 @@ use vrl::value::{Secrets, Value};
 
 pub fn exec(op: &str, a: &[String]) -> Option<Reply> {
     match (op, a) {
-        ("o.c01" | "o.c02" | "o.c12", [src, event, metadata]) => {
+        ("o.c01" | "o.c02" | "o.c12", [src, event, metadata]) => oracle(src, None, event, metadata),
+        // the same oracle on a program compiled against a declared external environment
+        // (`ExternalEnv::new_with_kind`), run on an event / metadata generated from the declared kinds
+        ("o.c01.env" | "o.c02.env" | "o.c12.env", [src, tk, mk, event, metadata]) => {
+            oracle(src, Some((tk.as_str(), mk.as_str())), event, metadata)
+        }
+        _ => None,
+    }
+}
+
+fn oracle(src: &str, env: Option<(&str, &str)>, event: &str, metadata: &str) -> Option<Reply> {
+    {
+        {
             let srct = String::from_utf8(unhex(src)?).ok()?;
-            let fns = vrl::stdlib::all();
-            let res = guarded(|| vrl::compiler::compile(&srct, &fns).ok()).ok()??;
-            let program = res.program;
+            if std::env::var("VERIF_TRACE").is_ok() {
+                eprintln!("TRACE {srct:?} {event}");
+            }
+            let program = match env {
+                None => crate::vrlrun::compile(&srct).ok()?,
+                Some((tk, mk)) => {
+                    let target = crate::kindwire::parse_kind(tk)?;
+                    let metadata_kind = crate::kindwire::parse_kind(mk)?;
+                    crate::tinfo::compile_env(&srct, &target, &metadata_kind).ok()?
+                }
+            };
+            let dump = vrl::compiler::verif::dump_program(&program);
             let has_bang = srct.contains("!(");
             let has_abort = srct.contains("abort");
             let info = program.info().clone();
             let fin = program.final_type_info();
             let mut obs = vec![
+                dump,
                 show_kind(fin.result.kind()),
                 show_kind(fin.result.returns()),
                 show_kind(fin.state.external.target_kind()),
@@ -81,7 +103,72 @@ pub fn exec(op: &str, a: &[String]) -> Option<Reply> {
             }
             Some(Reply::oracle(obs))
         }
-        _ => None,
+    }
+}
+
+/// `"s" * i64::MAX` makes `[u8]::repeat` abort the whole process (allocation failure is not a panic):
+/// such programs are not run (the abort is C04's finding, not a typing matter)
+pub fn risky_alloc(src: &str) -> bool {
+    const BIG: [&str; 2] = ["9223372036854775807", "9007199254740993"];
+    if !BIG.iter().any(|b| src.contains(b)) || !src.contains('*') {
+        return false;
+    }
+    // a `*` one of whose operands is the huge literal or a variable (which may hold it)
+    thread_local! {
+        static RE: regex::Regex = regex::Regex::new(
+            r"\*\s*(9223372036854775807|9007199254740993|[a-z_])|(9223372036854775807|9007199254740993|[a-z_][a-z0-9_]*)\s*\*"
+        ).unwrap();
+    }
+    RE.with(|re| re.is_match(src))
+}
+
+/// programs of the call-free typing generator, compiled against declared environments, on events
+/// generated from the declared kinds
+pub fn generate_env(sink: &mut Sink, rng: &mut Rng, n: u64, op: &str) {
+    let op_env = format!("{op}.env");
+    let mut accepted = 0u64;
+    let mut tried = 0u64;
+    while accepted < n && tried < n * 30 {
+        tried += 1;
+        let src = if rng.chance(1, 4) {
+            let mut g = lang::Gen::new(rng);
+            g.program()
+        } else {
+            let mut g = crate::tinfo::TGen::new(rng);
+            g.program()
+        };
+        if risky_alloc(&src) {
+            sink.count("typed:skipped_huge_repeat");
+            continue;
+        }
+        let (tk, mk, declared) = crate::tinfo::gen_env(rng);
+        let (stk, smk) = (show_kind(&tk), show_kind(&mk));
+        if crate::kindwire::parse_kind(&stk).is_none() || crate::kindwire::parse_kind(&smk).is_none() {
+            continue;
+        }
+        if crate::tinfo::compile_env(&src, &tk, &mk).is_err() {
+            sink.count("typed:env:rejected_by_compiler");
+            continue;
+        }
+        accepted += 1;
+        sink.count(if declared { "typed:env:declared" } else { "typed:env:any" });
+        for _ in 0..3 {
+            let (event, meta) = if declared {
+                match (crate::c19::gen_member(rng, &tk, 3), crate::c19::gen_member(rng, &mk, 2)) {
+                    (Some(e), Some(m)) => (e, m),
+                    _ => {
+                        sink.count("typed:env:no_member");
+                        continue;
+                    }
+                }
+            } else {
+                (lang::gen_event(rng), lang::gen_metadata(rng))
+            };
+            if let Some(r) = sink.emit(&op_env, &[hex(src.as_bytes()), stk.clone(), smk.clone(), show_value(&event), show_value(&meta)]) {
+                let out = r.obs.get(6).cloned().unwrap_or_default();
+                sink.count(&format!("typed:env:outcome:{}", out.split(' ').next().unwrap_or("")));
+            }
+        }
     }
 }
 
@@ -94,6 +181,10 @@ pub fn generate(sink: &mut Sink, rng: &mut Rng, n: u64, op: &str) {
             let mut g = lang::Gen::new(rng);
             g.program()
         };
+        if risky_alloc(&src) {
+            sink.count("typed:skipped_huge_repeat");
+            continue;
+        }
         if crate::vrlrun::compile(&src).is_err() {
             sink.count("typed:rejected_by_compiler");
             continue;
@@ -103,7 +194,7 @@ pub fn generate(sink: &mut Sink, rng: &mut Rng, n: u64, op: &str) {
             let event = lang::gen_event(rng);
             let meta = lang::gen_metadata(rng);
             if let Some(r) = sink.emit(op, &[hex(src.as_bytes()), show_value(&event), show_value(&meta)]) {
-                let out = r.obs.get(5).cloned().unwrap_or_default();
+                let out = r.obs.get(6).cloned().unwrap_or_default();
                 sink.count(&format!("typed:outcome:{}", out.split(' ').next().unwrap_or("")));
             }
         }
